@@ -720,7 +720,17 @@ def interleaved(rng, res):
                 elif act == "run":
                     rl.in_toto_run(name, ["m0"], ["m0"], ["true"], signer=k.signer)
                 else:
-                    rl.in_toto_record_stop(name, ["m0"], signer=k.signer)
+                    try:
+                        rl.in_toto_record_stop(name, ["m0"], signer=k.signer)
+                    except Exception as e:  # pylint: disable=broad-except
+                        # every recording here was started and is stopped once: its preliminary record must be there
+                        res.evaluations += 1
+                        res.fail("oracle", {"op": "interleaved", "order": [(a, n, k_.keyid[:8]) for a, n, k_ in acts + stops],
+                                            "failed_at": [act, name, k.keyid[:8]]},
+                                 {"why": "the stop of a started recording failed (%s): its preliminary record did not survive the "
+                                         "other recordings' starts and stops in the same directory" % type(e).__name__,
+                                  "files": sorted(os.listdir("."))})
+                        return
         exp = sorted(["a.%s.link" % k1.keyid[:8], "a.%s.link" % k2.keyid[:8], "b.%s.link" % k2.keyid[:8],
                       "c.%s.link" % k1.keyid[:8], "m0"])
         got = sorted(os.listdir(root))
